@@ -72,7 +72,7 @@ Inductive fcobs := FC (ok : bool) (ans : list (name * (fcres * list (N * fcres))
 Inductive sobs := SO (r : res bytes) (written : option json) (rs : option restart) (fc : option fcobs).
 
 Inductive case :=
-| CHist (tbl : b64tbl) (cin : cache_input) (names : list name) (allow : bool) (age : Z)
+| CHist (tbl : b64tbl) (rfail : bool) (cin : cache_input) (names : list name) (allow : bool) (age : Z)
         (init_ans : list (name * option (N * bytes))) (now0 : Z) (probe : list name)
         (cons_ok : bool) (cons_reqs : list name) (cons_wok : bool) (cobs : sobs)
         (steps : list (ev bytes * bool * sobs))
@@ -150,7 +150,8 @@ Definition fc_ok (c : cache_input) (o : option fcobs) : bool :=
                        && forallb (fun '(old, r) => fcres_eqb r (fc_get_if_changed raw n old)) gs) ans
     | None => negb ok
     end
-  | Some _, _ => false
+  | Some (FC ok _), Some None => negb ok     (* content that does not parse: NewFileClient reports an error *)
+  | Some _, None => false
   end.
 
 Fixpoint run_steps (names : list name) (age : Z) (probe : list name)
@@ -169,18 +170,20 @@ Fixpoint run_steps (names : list name) (age : Z) (probe : list name)
     && run_steps names age probe s' c' clean' alive' rest
   end.
 
-Definition check_hist (cin : cache_input) (names : list name) (allow : bool) (age : Z)
+(* rfail: Cache.Read failed at construction (the content `cin` exists but was not seen) *)
+Definition check_hist (rfail : bool) (cin : cache_input) (names : list name) (allow : bool) (age : Z)
                       (init_ans : list (name * option (N * bytes))) (now0 : Z) (probe : list name)
                       (cons_ok : bool) (cons_reqs : list name) (cons_wok : bool) (cobs : sobs)
                       (steps : list (ev bytes * bool * sobs)) : bool :=
-  match new_store (decode_in cin) names allow age (assoc_ans init_ans) now0 with
+  let seen : cache_input := if rfail then None else cin in
+  match new_store (decode_in seen) names allow age (assoc_ans init_ans) now0 with
   | None => negb cons_ok
   | Some (s, fx, reqs) =>
     let '(SO _ w rs fc) := cobs in
     let c' := next_cin cin w cons_wok in
     (* "clean": the cache content corresponds to the state (usable cache or a successful write) *)
     let clean := match fx with
-                 | [] => match usable dec cin with Some _ => true | None => match m s with [] => true | _ => false end end
+                 | [] => match usable dec seen with Some _ => true | None => negb rfail && match m s with [] => true | _ => false end end
                  | _ => cons_wok end in
     cons_ok && list_beq neqb cons_reqs reqs && written_ok fx w
     && restart_ok c' names age now0 probe (if clean then Some s else None) rs
@@ -192,8 +195,8 @@ End Check.
 
 Definition check (c : case) : bool :=
   match c with
-  | CHist tbl cin names allow age ia now0 probe cok creqs cwok cobs steps =>
-    check_hist tbl cin names allow age ia now0 probe cok creqs cwok cobs steps
+  | CHist tbl rfail cin names allow age ia now0 probe cok creqs cwok cobs steps =>
+    check_hist tbl rfail cin names allow age ia now0 probe cok creqs cwok cobs steps
   | CTrace expect_ok t => if expect_ok then atomic_write_ok t else failed_write_ok t
   | CInject panicked content t => negb panicked && ((content =? 0)%N || (content =? 1)%N) && failed_write_ok t
   end.
